@@ -668,11 +668,12 @@ class Gen:
             v(H, sig, flip(Q, rng.randrange(16 * no)), "bit:pub")
             return
         T = self.thorough
+        T2 = T and mo == 32          # l = 512: every signature bit, 64-bit samples of hash and public key
         for b in range(16 * mo) if T else self.bits(16 * mo, 12 if i == 0 else 6, (8 * mo - 1, 8 * mo, 7)):
             v(H, flip(sig, b), Q, "bit:sig")
-        for b in range(8 * mo) if T else self.bits(8 * mo, 6 if i == 0 else 3, (8 * mo - 8,)):
+        for b in range(8 * mo) if T2 else self.bits(8 * mo, 64 if T else 6 if i == 0 else 3, (8 * mo - 8,)):
             v(flip(H, b), sig, Q, "bit:hash")
-        for b in range(16 * no) if T else self.bits(16 * no, 6 if i == 0 else 3):
+        for b in range(16 * no) if T2 else self.bits(16 * no, 64 if T else 6 if i == 0 else 3):
             v(H, sig, flip(Q, b), "bit:pub")
         for lab, Qb in self.pubs_p(cv, Q)[1:]:
             v(H, sig, Qb, "pub:" + lab)
@@ -795,8 +796,10 @@ class Gen:
             v(ld, flip(H, rng.randrange(8 * len(H))), sig, Qb, "bit:hash")
             v(ld, H, sig, flip(Qb, rng.randrange(16 * no)), "bit:pub")
             return
-        T = self.thorough and n <= 2
-        k = 4 if big else (12 if i in (0, 2) else 6)
+        # thorough: every bit for the first signature of each curve (a 64-bit sample on the large curves: the model costs
+        # up to 0.5 s per verification there)
+        T = self.thorough and n <= 1 and not big
+        k = (64 if self.thorough and n <= 1 else 4) if big else (12 if i in (0, 2) else 6)
         for b in range(8 * len(sig)) if T else self.bits(8 * len(sig), k, (8 * oo - 1, 8 * oo, 8 * half, 8 * half - 1)):
             v(ld, H, flip(sig, b), Qb, "bit:sig")
         for b in range(8 * len(H)) if T else self.bits(8 * len(H), 3 if big else 5, (cv.m - 1, cv.m)):
